@@ -81,6 +81,17 @@ func checkFillerCtors(p *Prog, r *Report) {
 			continue
 		}
 		n++
+		// the fields an option of this package can set
+		optField := map[string]bool{}
+		for _, m := range fn.Pkg.Members {
+			if of, isF := m.(*ssa.Function); isF {
+				if sm := SummOption(of); sm != nil {
+					for _, w := range sm.Writes {
+						optField[w.Field] = true
+					}
+				}
+			}
+		}
 		ok, why := true, ""
 		for _, s := range PathsInl(fn).From(heads[0]) {
 			if s.End != nil {
@@ -93,12 +104,18 @@ func checkFillerCtors(p *Prog, r *Report) {
 			}
 			filler := s.Resolve(ret.Results[0])
 			for _, e := range s.Events {
-				if e.Kind == EvStore && derivesFromParam(e.Addr, filler, 0) {
+				if e.Kind != EvStore || !derivesFromParam(e.Addr, filler, 0) {
+					continue
+				}
+				if fa, isFA := e.Addr.(*ssa.FieldAddr); isFA && !optField[fieldName(fa.X.Type(), fa.Field)] {
+					continue // no option sets this field: nothing an option asked for can be lost
+				}
+				{
 					ok, why = false, "field "+s.Term(e.Addr)+" is written after the options were applied: a value requested through an option can be replaced by a default"
 				}
 			}
 		}
-		r.Check(ok, "C05.R2", FuncName(fn)+"/options-last", p.Pos(fn.Pos()), "a filler constructor installs its defaults before the option loop and writes nothing to the filler afterwards", why)
+		r.Check(ok, "C05.R2", FuncName(fn)+"/options-last", p.Pos(fn.Pos()), "a filler constructor installs its defaults before the option loop and afterwards writes no field an option can set", why)
 	}
 	if n < 3 {
 		r.Viol("C05.R2", "filler constructors", "-", "the option-taking filler constructors are found (icmp, tcp, udp)", fmt.Sprint(n))
